@@ -98,3 +98,33 @@ package netlist
 //@ interface Matcher.Match
 //@   log MatchI
 //@   params self, addr
+
+// LoadFromText (C13): text with a '/' is appended as exactly the prefix netip.ParsePrefix makes of
+// it; a bare address as its single-address prefix; a parse error is returned and nothing appended.
+//@ func LoadFromText [C13]
+//@   log netlistLoadFromText
+//@   requires l != nil
+//@   modifies *
+//@   ensures containsRune(s, 47) ==> calls(ParsePrefix) == 1 && arg(ParsePrefix, 0, 0) == s && calls(ParseAddr) == 0
+//@   ensures !containsRune(s, 47) ==> calls(ParseAddr) == 1 && arg(ParseAddr, 0, 0) == s && calls(ParsePrefix) == 0
+//@   ensures result == nil ==> calls(listAppend) == 1 && arg(listAppend, 0, 0) == l && len(arg(listAppend, 0, 1)) == 1
+//@   ensures result != nil ==> calls(listAppend) == 0
+//@   ensures result == nil && containsRune(s, 47) ==> atcall(listAppend, 0, arg(listAppend, 0, 1)[0] == ret(ParsePrefix, 0, 0))
+//@   ensures result == nil && !containsRune(s, 47) ==> atcall(listAppend, 0, arg(listAppend, 0, 1)[0].addr == ret(ParseAddr, 0, 0) && arg(listAppend, 0, 1)[0].bits == bitlen(ret(ParseAddr, 0, 0)))
+
+// LoadFromReader (C13): every line is trimmed FIRST, then cut at '#' and at the first blank (so
+// an indented rule is still a rule, and a trailing word or comment is ignored); an empty rest is
+// skipped, anything else is loaded as one rule; the first bad line stops the load.
+//@ func LoadFromReader [C13]
+//@   wraparound
+//@   requires l != nil && reader != nil
+//@   modifies *
+//@   ensures calls(bufioNewScanner) == 1 && arg(bufioNewScanner, 0, 0) == reader
+//@   ensures calls(scanErr) == 1 ==> result == ret(scanErr, 0) && lastret(scanScan) == false
+//@   ensures calls(scanErr) == 0 ==> result != nil && lastret(netlistLoadFromText) != nil
+//@   loop 0:
+//@     invariant scanner != nil && l != nil && calls(scanErr) == 0
+//@     each iter_calls(scanScan) == 1 && iter_ret(scanScan, 0) && iter_calls(scanText) == 1 && iter_calls(RemoveComment) == 2
+//@     each iter_arg(RemoveComment, 0, 0) == tsp(iter_ret(scanText, 0)) && iter_arg(RemoveComment, 0, 1) == "#" && iter_arg(RemoveComment, 1, 0) == iter_ret(RemoveComment, 0) && iter_arg(RemoveComment, 1, 1) == " "
+//@     each len(iter_ret(RemoveComment, 1)) == 0 ==> iter_calls(netlistLoadFromText) == 0
+//@     each len(iter_ret(RemoveComment, 1)) != 0 ==> iter_calls(netlistLoadFromText) == 1 && iter_arg(netlistLoadFromText, 0, 0) == l && iter_arg(netlistLoadFromText, 0, 1) == iter_ret(RemoveComment, 1) && iter_ret(netlistLoadFromText, 0) == nil
